@@ -354,6 +354,61 @@ func runC08(c *core.Ctx) {
 		}
 	}
 
+	c.Rule("C08.begunexists", "a container that was begun exists, even when it stays empty: in bindnode, wherever a Begin* method creates the package's assembler for a schema list or map over a Go slice or map value, that Go value was made (reflect.MakeSlice / reflect.MakeMap) or found non-nil on every path - a nil slice or map is how an absent or null container is held in a field bound without a pointer, so an empty list left nil reads back as absent", 2)
+	{
+		isSchemaPtr := func(t types.Type, name string) bool {
+			pt, ok := t.(*types.Pointer)
+			if !ok {
+				return false
+			}
+			nt := namedOfType(pt.Elem())
+			return nt != nil && nt.Obj().Name() == name && nt.Obj().Pkg() != nil && core.RelPkg(nt.Obj().Pkg().Path()) == "schema"
+		}
+		for _, fn := range p.ModFns {
+			pk := core.FuncPkg(fn)
+			if pk == nil || core.RelPkg(pk.Path()) != "node/bindnode" || len(fn.Blocks) == 0 || fn.Synthetic != "" {
+				continue
+			}
+			if fn.Name() != "BeginList" && fn.Name() != "BeginMap" {
+				continue
+			}
+			n := 0
+			core.Instrs(fn, func(in ssa.Instruction) {
+				al, ok := in.(*ssa.Alloc)
+				if !ok || !al.Heap {
+					return
+				}
+				st, ok := al.Type().(*types.Pointer).Elem().Underlying().(*types.Struct)
+				if !ok {
+					return
+				}
+				maker := ""
+				for i := 0; i < st.NumFields(); i++ {
+					if isSchemaPtr(st.Field(i).Type(), "TypeList") {
+						maker = "MakeSlice"
+					}
+					if isSchemaPtr(st.Field(i).Type(), "TypeMap") {
+						maker = "MakeMap"
+					}
+				}
+				if maker == "" {
+					return
+				}
+				n++
+				isMake := func(x ssa.Instruction) bool {
+					ci, ok := x.(ssa.CallInstruction)
+					return ok && core.IsPkgFunc(ci, "reflect", maker)
+				}
+				nonNil := core.BoolEdgesWhere(fn, func(v ssa.Value) bool {
+					cl, ok := core.Strip(v).(*ssa.Call)
+					return ok && core.IsMethod(cl, "reflect", "Value", "IsNil")
+				}, false)
+				path, reached := core.Reach(fn, nil, func(x ssa.Instruction) bool { return x == ssa.Instruction(al) }, nonNil, isMake)
+				c.Check(!reached, fmt.Sprintf("%s#begun-%s/%d", core.FuncKey(fn), strings.TrimPrefix(maker, "Make"), n), p.Pos(al.Pos()), "the Go value is made or found non-nil before the assembler is handed out", "the assembler for a schema "+strings.ToLower(strings.TrimPrefix(maker, "Make"))+" is created over a Go value that may still be nil (no reflect."+maker+", no IsNil test on the way): when nothing is added the value stays nil, and a nil value in an optional or nullable position is read back as absent / null - the empty container does not survive a round trip", p.Witness(path)...)
+			})
+		}
+	}
+
 	c.Rule("C08.nullsame", "the read routes of one node agree on what is null: in bindnode, every place that answers datamodel.Null (or datamodel.Absent) for a field or element because the schema says nullable (optional) and the Go value is nil decides it under the same kind of tests - a route that asks one question more (or less) than its siblings reads the same value differently by look-up and by iteration (a comparison among the sites that have this shape: no floor)", 0)
 	{
 		type site struct {
